@@ -83,10 +83,24 @@ where
 }
 
 fn huffman(rng: &mut Rng) -> (EncoderHuffmanTree, DecoderHuffmanTree, Vec<usize>) {
-    let n = rng.usize_in(1, 12);
-    let w: Vec<u32> = (0..n).map(|_| 1 + rng.below(9) as u32).collect();
-    let e = EncoderHuffmanTree::from_probabilities::<u32, _>(&w);
-    let d = DecoderHuffmanTree::from_probabilities::<u32, _>(&w);
+    // one codebook in eight is a deep comb (Fibonacci weights): code words of up to ~90 bits,
+    // longer than any machine word a symbol coder might want to collect them in
+    let (e, d, n) = if rng.chance(1, 8) {
+        let n = rng.usize_in(60, 90);
+        let mut w: Vec<u64> = vec![1, 1];
+        while w.len() < n {
+            let k = w.len();
+            w.push(w[k - 1] + w[k - 2]);
+        }
+        if rng.bool() {
+            w.reverse();
+        }
+        (EncoderHuffmanTree::from_probabilities::<u64, _>(&w), DecoderHuffmanTree::from_probabilities::<u64, _>(&w), n)
+    } else {
+        let n = rng.usize_in(1, 12);
+        let w: Vec<u32> = (0..n).map(|_| 1 + rng.below(9) as u32).collect();
+        (EncoderHuffmanTree::from_probabilities::<u32, _>(&w), DecoderHuffmanTree::from_probabilities::<u32, _>(&w), n)
+    };
     let lens: Vec<usize> = (0..n)
         .map(|s| {
             let mut l = 0usize;
@@ -582,13 +596,14 @@ pub fn exp_golomb_sweep(run: &mut Run) {
         ok
     }
     let mut n = 0u64;
-    for v in 0..=u8::MAX {
+    // (under Miri the sweeps are thinned out: it interprets ~10^4 times slower)
+    for v in (0..=u8::MAX).step_by(if run.small { 15 } else { 1 }) {
         if !one::<u8>(run, v) {
             return;
         }
         n += 1;
     }
-    let step16 = if run.thorough() { 1 } else { 7 };
+    let step16 = if run.small { 4369 } else if run.thorough() { 1 } else { 7 };
     let mut v = 0u32;
     while v <= u16::MAX as u32 {
         if !one::<u16>(run, v as u16) {
@@ -599,6 +614,9 @@ pub fn exp_golomb_sweep(run: &mut Run) {
     }
     one::<u16>(run, u16::MAX);
     for k in 0..64u32 {
+        if run.small && k % 9 != 0 && k != 63 {
+            continue;
+        }
         for d in [-1i64, 0, 1] {
             let x = (1u64 << k).wrapping_add(d as u64);
             if k < 32 {
